@@ -68,6 +68,7 @@ inductive Pred
   | cmp (a : Opnd) (op : Cmp) (b : Opnd)
   | isNull (a : Opnd)
   | notNull (a : Opnd)
+  | eqNull (a b : Opnd)                   -- EQUAL_NULL(a, b) = a IS NOT DISTINCT FROM b: NULL-safe equality, never UNKNOWN
   | and (p q : Pred)
   | or (p q : Pred)
   | not (p : Pred)
@@ -81,6 +82,11 @@ def Pred.eval (r : Row) : Pred → Tri
     | _, _ => .u
   | .isNull a => Tri.ofBool (a.eval r).isNone
   | .notNull a => Tri.ofBool (a.eval r).isSome
+  | .eqNull a b =>
+    match a.eval r, b.eval r with
+    | some x, some y => Tri.ofBool (x == y)
+    | none, none => .t
+    | _, _ => .f
   | .and p q => (p.eval r).and (q.eval r)
   | .or p q => (p.eval r).or (q.eval r)
   | .not p => (p.eval r).not
@@ -91,6 +97,7 @@ def Pred.maxCol : Pred → Nat
   | .cmp a _ b => max a.maxCol b.maxCol
   | .isNull a => a.maxCol
   | .notNull a => a.maxCol
+  | .eqNull a b => max a.maxCol b.maxCol
   | .and p q => max p.maxCol q.maxCol
   | .or p q => max p.maxCol q.maxCol
   | .not p => p.maxCol
